@@ -138,51 +138,8 @@ Print Assumptions C02_connection.
 (* ===================================================================================== *)
 (* non-vacuity and refutations                                                             *)
 
-Definition F (n pre v post : string) : hfield :=
-  {| hf_name := bs n; hf_pre := bs pre; hf_value := bs v; hf_post := bs post |}.
-Definition HT : string := String (Ascii.ascii_of_nat 9) EmptyString.
-Definition cfg_plain : fcfg :=
-  {| cf_agent := bs "proxy.py v2.4"; cf_disable := []; cf_auth_code := None; cf_via_append := true; cf_upgrade_complete := true |}.
-Definition cfg_auth : fcfg :=
-  {| cf_agent := bs "proxy.py v2.4"; cf_disable := [bs "x-drop"; bs "user-agent"]; cf_auth_code := Some (bs "dXNlcjpwYXNz");
-     cf_via_append := true; cf_upgrade_complete := true |}.
-
-(* Content-Length body, userinfo + port + query in the target, name casings, value spacings, hop-by-hop and
-   disabled fields, credentials, a client Via, leading zeros in Content-Length *)
-Definition ex_cl : request :=
-  {| q_method := bs "POST";
-     q_target := Absolute (Some (bs "user", Some (bs "pw"))) (RegName (bs "example.com")) (Some (bs "8080")) (Some (bs "/a/b?x=1"));
-     q_version := bs "HTTP/1.1";
-     q_hs1 := [F "hOsT" HT "example.com:8080" " "; F "Proxy-Connection" " " "keep-alive" ""; F "X-Drop" "" "1" "";
-               F "pRoXy-AuThOrIzAtIoN" "  " "basic  dXNlcjpwYXNz" ""; F "via" " " "1.0 fred" ""];
-     q_framing := RLength (F "content-LENGTH" " " "0005" "") (bs "hello");
-     q_hs2 := [F "Accept" "" "*/*" "  "; F "User-Agent" " " "curl/8" ""] |}.
-(* three chunks (upper/lower-case hex, leading zeros, an extension), last-chunk extension, a trailer; IPv6 host *)
-Definition ex_chunked : request :=
-  {| q_method := bs "PUT"; q_target := Absolute None (IPv6 (bs "::1")) None (Some (bs "/up"));
-     q_version := bs "HTTP/1.1";
-     q_hs1 := [F "Host" " " "[::1]" ""];
-     q_framing := RChunked (F "Transfer-Encoding" " " "Chunked" "")
-       {| ch_chunks := [ {| ck_size := bs "5"; ck_ext := []; ck_data := bs "hello" |};
-                         {| ck_size := bs "00A"; ck_ext := bs ";name=val"; ck_data := bs "0123456789" |};
-                         {| ck_size := bs "0b"; ck_ext := []; ck_data := bs " chunked!!!" |} ];
-          ch_last_size := bs "0"; ch_last_ext := bs ";last"; ch_trailers := [bs "X-Trailer: 1"] |};
-     q_hs2 := [F "Expect" " " "100-continue" ""] |}.
-(* empty chunked body, HTTP/1.0, no path *)
-Definition ex_empty_chunked : request :=
-  {| q_method := bs "POST"; q_target := Absolute None (IPv4 (bs "10.0.0.1")) (Some (bs "81")) None;
-     q_version := bs "HTTP/1.0"; q_hs1 := [];
-     q_framing := RChunked (F "transfer-encoding" "" "chunked" "")
-       {| ch_chunks := []; ch_last_size := bs "000"; ch_last_ext := []; ch_trailers := [] |};
-     q_hs2 := [] |}.
-(* a later upgrade request *)
-Definition ex_upgrade : request :=
-  {| q_method := bs "GET"; q_target := Absolute None (RegName (bs "h")) None (Some (bs "/ws")); q_version := bs "HTTP/1.1";
-     q_hs1 := [F "Connection" " " "Upgrade" ""; F "Upgrade" " " "websocket" ""; F "Host" " " "h" ""];
-     q_framing := RNone; q_hs2 := [] |}.
-
-Definition via24 : bytes := bs "1.1 proxy.py v2.4".
-
+(* the witnesses (cfg_plain, cfg_auth, ex_cl, ex_chunked, ex_empty_chunked, ex_upgrade, via24) are defined at the end
+   of Net/Forward.v; the evaluations are done once, in Net/ForwardFacts.v *)
 (* the hypotheses of the theorems are satisfiable, and the conclusions compute: every example is inside the
    domain, is forwarded as expected_fwd says — also when it arrives one byte per piece — and the expectation is
    the intended one (spelled out for the first two) *)
@@ -212,32 +169,24 @@ Example C02_nonvacuous :
    | Some [w1; w2] => option_eqb fwd_eqb (ref_parse_request w2) (Some (expected_fwd cfg_plain ex_upgrade))
    | _ => false
    end = true).
-Proof. vm_compute. repeat split. Qed.
+Proof. exact nonvacuous. Qed.
 Print Assumptions C02_nonvacuous.
 
 (* ---- the code as found violated the property in two ways (both repaired by fix: commits) ---- *)
 
 (* (a) before fix C02-via-append: a Via field sent by the client was REPLACED: the origin is sent a request whose
    Via value no longer contains the client's "1.0 fred" *)
-Definition as_found_via (cfg : fcfg) : fcfg :=
-  {| cf_agent := cf_agent cfg; cf_disable := cf_disable cfg; cf_auth_code := cf_auth_code cfg;
-     cf_via_append := false; cf_upgrade_complete := cf_upgrade_complete cfg |}.
 Theorem C02_via_overwrite_refuted :
   exists cfg r w e, wf_request r = true /\ auth_passes cfg r = true /\
     forward (as_found_via cfg) [render_request r] = Some [w] /\ ref_parse_request w = Some e /\
     fwd_eqb e (expected_fwd cfg r) = false /\
     get_ci L_VIA (f_headers e) = Some via24 /\
     get_ci L_VIA (f_headers (expected_fwd cfg r)) = Some (bs "1.0 fred, " ++ via24).
-Proof.
-  exists cfg_auth, ex_cl. eexists. eexists. vm_compute. repeat split.
-Qed.
+Proof. exact via_overwrite_refuted. Qed.
 Print Assumptions C02_via_overwrite_refuted.
 
 (* (b) before fix C02-upgrade-request-in-progress: a later request carrying Connection and Upgrade fields that
    arrives in two pieces (cut after both field lines) is not forwarded; the rest of its own bytes is queued raw *)
-Definition as_found_upgrade (cfg : fcfg) : fcfg :=
-  {| cf_agent := cf_agent cfg; cf_disable := cf_disable cfg; cf_auth_code := cf_auth_code cfg;
-     cf_via_append := cf_via_append cfg; cf_upgrade_complete := false |}.
 Theorem C02_upgrade_in_progress_refuted :
   exists cfg r1 r2 a b w1 w2,
     wf_request r1 = true /\ wf_request r2 = true /\ is_upgrade_request r1 = false /\
@@ -247,10 +196,7 @@ Theorem C02_upgrade_in_progress_refuted :
     (* while unsegmented it is forwarded properly by the same code *)
     (exists w2', forward (as_found_upgrade cfg) [render_request r1; render_request r2] = Some [w1; w2'] /\
                  ref_parse_request w2' = Some (expected_fwd cfg r2)).
-Proof.
-  exists cfg_plain, ex_empty_chunked, ex_upgrade, (firstn 70 (render_request ex_upgrade)), (skipn 70 (render_request ex_upgrade)).
-  eexists. eexists. vm_compute. repeat split; try discriminate. eexists. split; reflexivity.
-Qed.
+Proof. exact upgrade_in_progress_refuted. Qed.
 Print Assumptions C02_upgrade_in_progress_refuted.
 
 (* ---- known finding C02-te-list-not-chunked (current code): the guard "Transfer-Encoding value is exactly
@@ -258,14 +204,11 @@ Print Assumptions C02_upgrade_in_progress_refuted.
    ("gzip, chunked", legal per RFC 7230 section 3.3.1) is taken to have no body: the header section is forwarded
    at once — still announcing the chunked coding — and the body bytes are never forwarded (they stay in the
    first request's buffer). *)
-Definition te_list_raw : bytes :=
-  bs "POST http://h.example/ HTTP/1.1" ++ CRLF ++ bs "Host: h.example" ++ CRLF ++
-  bs "Transfer-Encoding: gzip, chunked" ++ CRLF ++ CRLF ++ bs "3" ++ CRLF ++ bs "abc" ++ CRLF ++ bs "0" ++ CRLF ++ CRLF.
 Theorem C02_te_list_refuted :
   exists w st, feed cfg_plain true init_state [te_list_raw] = Done false st /\ upstream_queue st = [w] /\
     w = bs "POST / HTTP/1.1" ++ CRLF ++ bs "Host: h.example" ++ CRLF ++ bs "Transfer-Encoding: gzip, chunked" ++ CRLF ++
         bs "Via: " ++ via24 ++ CRLF ++ CRLF /\
     buffer (h_request st) = Some (bs "3" ++ CRLF ++ bs "abc" ++ CRLF ++ bs "0" ++ CRLF ++ CRLF) /\
     ref_parse_request w = None.
-Proof. eexists. eexists. vm_compute. repeat split. Qed.
+Proof. exact te_list_refuted. Qed.
 Print Assumptions C02_te_list_refuted.
